@@ -35,6 +35,13 @@ CHECKS = {
              "copy-on-write helper, deepcopy} plus random paths of length 8-10 are replayed through real Alias/DeprecatedAlias descriptors, recording value, exception "
              "class, target/override state, fallback identity and warning count; TLC re-runs the model along every observed path.",
         note=TB, technique="TLA+ spec + TLC model checking; exhaustive path replay through the real descriptor; TLC trace validation", ref="3 C18"),
+    "C15": dict(
+        text="Conforms(v, T) of PyTypes.tla transcribes the documented meaning of the annotation language; TLC enumerates every annotation of depth <= 1 "
+             "(379 terms; thorough adds a 171-term depth-2 layer) x a 182-value pool built to contain conforming values and values failing at each structural "
+             "position, model-checks algebraic laws (Optional, list/tuple/dict lifting, numeric tower, union monotonicity) on every pair, and the real check_type "
+             "is executed on every pair (annotations rendered alternately as typing generics / PEP 585 / PEP 604 / Optional) plus random depth-3 terms; TLC judges "
+             "accepted <=> Conforms and 'never raises'. A pure function: TLC is enumerator and evaluator, one implementation test per case of the function table.",
+        note=TB, technique="TLA+ transcription of the type relation; TLC-enumerated function table executed on check_type; TLC-judged", ref="3 C15"),
 }
 
 PENDING = "check not built yet in this round (see DESIGN.md section 3 for the planned TLA+ module)"
